@@ -204,6 +204,127 @@ def oracle_pr(pr, prsn):
     return problems
 
 
+# ------------------------------------------------------------------ stateful sequences on the same array objects
+# The conversions are documented as plain element-wise formulas: every call must equal a fresh computation from the
+# CURRENT content of its arguments, whatever was called before on the same array objects and however the arrays were
+# modified in place between the calls.  The reference is the documented formula evaluated here (never the functions
+# under test, so the reference cannot disturb any hidden state), and no call may change its arguments.
+SEQ_CALLS = ["get_tasrange", "get_tasskew", "get_tasrange_tasskew", "get_tasmin", "get_tasmax", "get_tasmin_tasmax",
+             "get_prsnratio", "get_prsn", "get_pr"]
+SEQ_MODS = ["shift_t", "scale_t", "perturb_tas", "swap_content_rs", "scale_pr"]
+
+
+def seq_reference(name, v):
+    """documented formulas on the current content of the named arrays"""
+    tas, mn, mx, r, s, pr, prsn, q = (v[k] for k in ("tas", "tasmin", "tasmax", "r", "s", "pr", "prsn", "q"))
+    with np.errstate(all="ignore"):
+        if name == "get_tasrange":
+            return (mx - mn,)
+        if name == "get_tasskew":
+            return ((tas - mn) / (mx - mn),)
+        if name == "get_tasrange_tasskew":
+            return (mx - mn, (tas - mn) / (mx - mn))
+        if name == "get_tasmin":
+            return (tas - s * r,)
+        if name == "get_tasmax":
+            return ((tas - s * r) + r,)
+        if name == "get_tasmin_tasmax":
+            return (tas - s * r, (tas - s * r) + r)
+        if name == "get_prsnratio":
+            return (prsn / pr,)
+        if name == "get_prsn":
+            return (q * pr,)
+        return (prsn / q,)
+
+
+def seq_call(u, name, v):
+    f = getattr(u, name)
+    args = {"get_tasrange": ("tasmin", "tasmax"), "get_tasskew": ("tas", "tasmin", "tasmax"), "get_tasrange_tasskew": ("tas", "tasmin", "tasmax"),
+            "get_tasmin": ("tas", "r", "s"), "get_tasmax": ("tas", "r", "s"), "get_tasmin_tasmax": ("tas", "r", "s"),
+            "get_prsnratio": ("pr", "prsn"), "get_prsn": ("pr", "q"), "get_pr": ("prsn", "q")}[name]
+    out = f(*[v[a] for a in args])
+    return (out if isinstance(out, tuple) else (out,)), args
+
+
+def seq_mod(step, v):
+    """in-place modifications of the SAME array objects (ids unchanged)"""
+    kind, c = step[1], step[2]
+    if kind == "shift_t":  # unit change K <-> degC: range and skew are invariant, so r and s stay valid
+        for k in ("tas", "tasmin", "tasmax"):
+            v[k] -= c
+    elif kind == "scale_t":
+        for k in ("tas", "tasmin", "tasmax", "r"):
+            v[k] *= c
+    elif kind == "perturb_tas":
+        v["tas"] += c
+    elif kind == "swap_content_rs":  # new content in r and s (still 0 <= s <= 1 not required for the formulas)
+        v["r"] *= c
+        v["s"] *= 0.5
+    elif kind == "scale_pr":
+        v["pr"] *= c
+        v["prsn"] *= c
+
+
+def gen_sequence(rng, n):
+    """a script: calls and in-place modifications interleaved; the scripted prefixes are the patterns in which a value
+    cached from an earlier call on the same objects would be stale"""
+    pre = rng.choice([
+        [("call", "get_tasmin"), ("mod", "shift_t", 273.15), ("call", "get_tasmax")],
+        [("call", "get_tasmin"), ("mod", "perturb_tas", 1.5), ("call", "get_tasmin_tasmax")],
+        [("call", "get_tasmin_tasmax"), ("mod", "shift_t", -40.0), ("call", "get_tasmax"), ("call", "get_tasmin")],
+        [("call", "get_tasmax"), ("mod", "swap_content_rs", 2.0), ("call", "get_tasmax"), ("call", "get_tasmin_tasmax")],
+        [("call", "get_tasskew"), ("mod", "perturb_tas", -0.25), ("call", "get_tasrange_tasskew"), ("call", "get_tasskew")],
+        [("call", "get_tasrange"), ("mod", "scale_t", 2.0), ("call", "get_tasrange_tasskew"), ("call", "get_tasrange")],
+        [("call", "get_prsnratio"), ("mod", "scale_pr", 4.0), ("call", "get_prsn"), ("call", "get_pr"), ("call", "get_prsnratio")],
+        [("call", "get_prsn"), ("mod", "scale_pr", 0.5), ("call", "get_prsn"), ("call", "get_pr")],
+    ])
+    script = list(pre)
+    for _ in range(n):
+        if rng.random() < 0.35:
+            kind = rng.choice(SEQ_MODS)
+            c = {"shift_t": rng.choice([273.15, -273.15, 10.0]), "scale_t": rng.choice([2.0, 0.5]), "perturb_tas": rng.randint(-64, 64) / 64.0,
+                 "swap_content_rs": rng.choice([2.0, 0.5]), "scale_pr": rng.choice([2.0, 0.25, 86400.0])}[kind]
+            script.append(("mod", kind, c))
+        else:
+            script.append(("call", rng.choice(SEQ_CALLS)))
+    return script
+
+
+def run_sequence(init, script):
+    """init: dict of lists (tas, tasmin, tasmax, pr, prsn). returns problems [(description, step index)]"""
+    u = U()
+    v = {k: np.array(init[k], dtype=float) for k in ("tas", "tasmin", "tasmax", "pr", "prsn")}
+    v["r"], v["s"] = v["tasmax"] - v["tasmin"], (v["tas"] - v["tasmin"]) / (v["tasmax"] - v["tasmin"])
+    v["q"] = v["prsn"] / v["pr"]
+    ids = {k: id(a) for k, a in v.items()}
+    problems = []
+    for n, step in enumerate(script):
+        if step[0] == "mod":
+            seq_mod(step, v)
+            continue
+        name = step[1]
+        before = {k: a.copy() for k, a in v.items()}
+        with warnings.catch_warnings(), np.errstate(all="ignore"):
+            warnings.simplefilter("ignore")
+            want = seq_reference(name, before)
+            got, args = seq_call(u, name, v)
+        for k in v:
+            if not np.array_equal(v[k], before[k], equal_nan=True) or id(v[k]) != ids[k]:
+                problems.append((f"step {n} {name}: the call changed its argument '{k}'", n))
+        tol = REL * mag(*[before[a] for a in args])
+        for pos, (g, w) in enumerate(zip(got, want)):
+            g = np.asarray(g, dtype=float)
+            fin = np.isfinite(w)
+            bad = (np.isfinite(g) != fin) | (fin & ~(np.abs(np.where(fin, g - w, 0.0)) <= tol + REL * np.abs(np.where(fin, w, 0.0))))
+            if g.shape != w.shape or np.any(bad):
+                where = first_bad(bad, g, w) if g.shape == w.shape else {}
+                problems.append((f"step {n} {name} (output {pos}) differs from a fresh computation on the current content of its arguments "
+                                 f"after the calls/in-place changes before it: {where}", n))
+        if problems:
+            break
+    return problems
+
+
 # ------------------------------------------------------------------ correspondence helpers
 def flat(a):
     return [float(x) for x in np.asarray(a, dtype=float).reshape(-1)]
@@ -237,7 +358,8 @@ def run(tier, res, force_search=False):
     rng = random.Random(C.seed() * 6007 + 18)
     res.rule = ("cases = (family tas-forward | tas-inverse | pr, flavour wellformed | degenerate | free, array shape incl. 0-d, empty, 1..4-d) "
                 "with dyadic values k/64 from one PRNG (VERIF_SEED); a case is non-trivial when the array is non-empty and not constant; "
-                "distinct = distinct (family, flavour, shape, values)")
+                "distinct = distinct (family, flavour, shape, values); plus call sequences (scripted stale-cache patterns + random calls / in-place "
+                "modifications) on the same array objects")
     res.trusted = C.BASE_TRUSTED + [
         "numpy arithmetic on arrays is element-wise and shape-preserving; x/0 yields inf/NaN (modelled as Py.divE's error \"div0\")",
         "translator option partial_div: every `/` of a translated function is Py.divE; functions without `/` are total",
@@ -329,6 +451,23 @@ def run(tier, res, force_search=False):
             for p, d in oracle_pr(pr, prsn):
                 problems_all.append((p, {"oracle": "pr", "pr": pr.tolist(), "prsn": prsn.tolist(), **case3, "detail": d}))
 
+    # stateful sequences: the same array objects reused across calls, modified in place between calls
+    n_seq = (12 if tier == "quick" else 150) * (3 if (force_search or not lean_ok) else 1)
+    for k in range(n_seq):
+        tas, tasmin, tasmax = gen_tas(rng, tier, "wellformed")
+        if tas.size == 0:
+            continue
+        pr = fill(tas.shape, lambda: rng.randint(1, 64 * 50) / 64.0)
+        prsn = pr * fill(tas.shape, lambda: rng.randint(1, 64) / 64.0)
+        init = {"tas": tas.tolist(), "tasmin": tasmin.tolist(), "tasmax": tasmax.tolist(), "pr": pr.tolist(), "prsn": prsn.tolist()}
+        script = gen_sequence(rng, rng.randint(4, 14))
+        res.count(("seq", tas.shape, tuple(map(str, script)), tas.tobytes()), True,
+                  sample={"family": "sequence", "shape": list(tas.shape), "script": [list(x) for x in script][:6]} if k == 0 else None)
+        res.extra["sequence_steps"] = res.extra.get("sequence_steps", 0) + len(script)
+        for p, nstep in run_sequence(init, script):
+            problems_all.append((p, {"oracle": "sequence", "family": "sequence", "shape": list(tas.shape), "init": init,
+                                     "script": [list(x) for x in script[:nstep + 1]], "detail": {"step": nstep}}))
+
     # python scalars (0-d without numpy): the functions are plain formulas and must accept them
     for k in range(6):
         lo = dy(rng, -20, 20)
@@ -365,7 +504,7 @@ def run(tier, res, force_search=False):
 
     seen = set()
     for p, case in problems_all:
-        key = (p, case.get("oracle"))
+        key = (p if case.get("oracle") != "sequence" else " ".join(p.split(" ")[2:4]), case.get("oracle"))
         if key in seen:
             continue
         seen.add(key)
@@ -384,7 +523,9 @@ def replay(data):
         print("replay without failing input: run ./check C18 --tier quick")
         return 2
     A = lambda k: np.asarray(fi[k], dtype=float)  # noqa: E731
-    if fi["oracle"] == "tas":
+    if fi["oracle"] == "sequence":
+        probs = [(p, {"step": n}) for p, n in run_sequence(fi["init"], [tuple(x) for x in fi["script"]])]
+    elif fi["oracle"] == "tas":
         probs = oracle_tas(A("tas"), A("tasmin"), A("tasmax"))
     elif fi["oracle"] == "order":
         probs = oracle_order(A("tas"), A("tasrange"), A("tasskew"))
